@@ -147,11 +147,19 @@ class Solver(object):
                 solved_values.update(s)
                 progress = progress or (len(s) > 0)
 
+        def variable_index(k: Any) -> int:
+            # "x_10" comes after "x_9": order by the number, not by the name
+            return int(k.name.split("_", 1)[1])
+
         x_keys = sorted(
-            (k for k in solved_values.keys() if k.name.startswith("x")), reverse=True
+            (k for k in solved_values.keys() if k.name.startswith("x")),
+            key=variable_index,
+            reverse=True,
         )
         w_keys = sorted(
-            (k for k in solved_values.keys() if k.name.startswith("w")), reverse=True
+            (k for k in solved_values.keys() if k.name.startswith("w")),
+            key=variable_index,
+            reverse=True,
         )
         solution_list = [solved_values.get(k) for k in x_keys]
         witness_list = [solved_values.get(k) for k in w_keys]
